@@ -1,4 +1,5 @@
 import BddVerif.Lemmas.ParserPrint
+import BddVerif.Lemmas.ParserFlat
 /-!
 # C14 — the expression parser is total and implements the documented grammar
 
@@ -116,6 +117,99 @@ theorem special_chars_not_in_names :
     (∀ c ∈ ['!', '&', '|', '^', ':', '?', '=', '<', '>', ')', '('], Gen.notInVarName.contains c = true) ∧
     (∀ c ∈ kwTrue ++ kwFalse, Gen.notInVarName.contains c = false) := by decide
 
+/-! ### the grammar over flat token strings (parentheses as tokens) -/
+
+/-- `group` inverts `flatten` … -/
+theorem group_flatten (ts : List Tok) : group (flattenL ts) = some ts := Parser.group_flatten ts
+
+/-- … and `flatten` inverts `group` wherever `group` succeeds -/
+theorem flatten_group (fl : List FT) (ts : List Tok) (h : group fl = some ts) : flattenL ts = fl :=
+  flatten_of_group h
+
+/-- `group` fails exactly on unbalanced parentheses (depth negative somewhere, or non-zero at the end) -/
+theorem group_none_iff_unbalanced (fl : List FT) : group fl = none ↔ balanced fl = false := by
+  have := group_isSome fl
+  cases hg : group fl <;> simp_all
+
+/-- **The tokenizer is flat lexing followed by grouping**, with the error messages of the code: a lexical
+    error (`Expected '>' after '='.`, `Expected '=' after '<'.`, `Unexpected '>'.`) or, on unbalanced
+    parentheses, `Unexpected ')'.` / `Expected ')'.` — whichever the left-to-right scan meets first. -/
+theorem tokenize_eq_group_lex (s : List Char) :
+    tokGroup s true =
+      match groupM (lexFlat s).1 (lexFlat s).2 [] [] with
+      | .ok ts => .ok (ts, [])
+      | .err m => .err m
+      | .panic m => .panic m := tokGroup_eq_groupM s
+
+/-- accepted by the tokenizer ⇔ lexes without error into a balanced flat string; the result is its grouping -/
+theorem tokenize_ok_iff (s : List Char) (ts : List Tok) (rest : List Char) :
+    tokGroup s true = .ok (ts, rest) ↔ rest = [] ∧ ∃ fl, lexFlat s = (fl, none) ∧ group fl = some ts :=
+  tokGroup_ok_iff s ts rest
+
+/-- unbalanced ⇒ the tokenizer returns one of the two parenthesis errors of the code -/
+theorem tokenize_unbalanced (s : List Char) (fl : List FT) (hl : lexFlat s = (fl, none))
+    (hu : balanced fl = false) :
+    tokGroup s true = .err "Unexpected ')'." ∨ tokGroup s true = .err "Expected ')'." := by
+  rw [tokGroup_eq_groupM, hl]
+  simp only
+  cases hg : groupM fl none [] [] with
+  | ok ts =>
+    have := (group_none_iff_unbalanced fl).mpr hu
+    rw [(groupM_none_eq fl ts).mp hg] at this; cases this
+  | err m => rcases groupM_err fl [] [] m hg with rfl | rfl <;> simp
+  | panic m =>
+    have := groupM_no_panic fl none [] []
+    rw [hg] at this; simp [Outcome.isPanic] at this
+
+/-- a lexical error ⇒ the tokenizer returns that error, or `Unexpected ')'.` if an unmatched `)` comes first -/
+theorem tokenize_lex_error (s : List Char) (fl : List FT) (m : String) (hl : lexFlat s = (fl, some m)) :
+    tokGroup s true = .err m ∨ tokGroup s true = .err "Unexpected ')'." := by
+  rw [tokGroup_eq_groupM, hl]
+  simp only
+  rcases groupM_tail fl m [] [] with h | h <;> rw [h] <;> simp
+
+/-- **Flat grammar = tree grammar after grouping**, at every level -/
+theorem flat_grammar_iff_tree_grammar (n : Nat) (fl : List FT) (e : Expr) :
+    DerF n fl e ↔ ∃ ts, group fl = some ts ∧ Der n ts e := derF_iff_der n fl e
+
+/-- **The parser implements the documented grammar over flat token strings**: for every string,
+    `try_from` returns `Ok(e)` exactly when the string lexes without error into a flat token string that
+    the grammar `DerF` (precedence `!` > `^` > `&` > `|` > non-nesting `?:` > `=>` > `<=>`, right
+    associative, parentheses as atoms, `true`/`false`) derives with tree `e`. -/
+theorem parse_iff_flat_grammar (s : List Char) (e : Expr) :
+    parse s = .ok e ↔ ∃ fl, lexFlat s = (fl, none) ∧ DerF 6 fl e := by
+  rw [parse_iff_grammar]
+  constructor
+  · rintro ⟨ts, rest, ht, hd⟩
+    obtain ⟨_, fl, hl, hg⟩ := (tokGroup_ok_iff s ts rest).mp ht
+    exact ⟨fl, hl, (derF_iff_der 6 fl e).mpr ⟨ts, hg, hd⟩⟩
+  · rintro ⟨fl, hl, hd⟩
+    obtain ⟨ts, hg, hd'⟩ := (derF_iff_der 6 fl e).mp hd
+    exact ⟨ts, [], (tokGroup_ok_iff s ts []).mpr ⟨rfl, fl, hl, hg⟩, hd'⟩
+
+/-- the flat grammar is unambiguous -/
+theorem flat_grammar_unambiguous (fl : List FT) (e e' : Expr) (h : DerF 6 fl e) (h' : DerF 6 fl e') : e = e' := by
+  obtain ⟨ts, hg, hd⟩ := (derF_iff_der 6 fl e).mp h
+  obtain ⟨ts', hg', hd'⟩ := (derF_iff_der 6 fl e').mp h'
+  rw [hg] at hg'; cases hg'
+  exact grammar_unambiguous ts e e' hd hd'
+
+/-- rejected ⇔ lexical error or no derivation in the flat grammar (never a panic: `parse_total`) -/
+theorem rejected_iff_not_flat_grammar (s : List Char) :
+    (parse s).isErr = true ↔ ¬ ∃ fl e, lexFlat s = (fl, none) ∧ DerF 6 fl e := by
+  have hp := parse_total s
+  constructor
+  · rintro h ⟨fl, e, hl, hd⟩
+    rw [(parse_iff_flat_grammar s e).mpr ⟨fl, hl, hd⟩] at h
+    simp [Outcome.isErr] at h
+  · intro h
+    cases hr : parse s with
+    | ok e =>
+      obtain ⟨fl, hl, hd⟩ := (parse_iff_flat_grammar s e).mp hr
+      exact absurd ⟨fl, e, hl, hd⟩ h
+    | err m => rfl
+    | panic m => rw [hr] at hp; simp [Outcome.isPanic] at hp
+
 /-! ### non-vacuity -/
 
 def exA : Expr := .var ['a']
@@ -162,5 +256,23 @@ example : (parseFormula [.id ['a'], .qmark, .id ['b'], .colon, .id ['c'], .qmark
   simp
   rw [orP_eq, andP_eq, xorP_eq, terminalP.eq_def]
   simp [indexOfFirst, Tok.eqK, Tok.tag, Outcome.bind, Outcome.isErr, kwTrue, kwFalse]
+
+/-- flat derivation of `( a | b ) & ! c`: the `|` inside the parentheses is not a split point -/
+example : DerF 6 [.lp, .id ['a'], .or, .id ['b'], .rp, .and, .not, .id ['c']]
+    (.and (.or (.var ['a']) (.var ['b'])) (.not (.var ['c']))) := by
+  have ha : DerF 0 [.id ['a']] (.var ['a']) := DerF.ident _ (by decide) (by decide)
+  have hb : DerF 0 [.id ['b']] (.var ['b']) := DerF.ident _ (by decide) (by decide)
+  have hc : DerF 0 [.id ['c']] (.var ['c']) := DerF.ident _ (by decide) (by decide)
+  have hor : DerF 3 ([.id ['a']] ++ .or :: [.id ['b']]) _ :=
+    DerF.orS (DerF.up (by omega) (DerF.up (by omega) ha)) (DerF.up (by omega) (DerF.up (by omega) (DerF.up (by omega) hb)))
+  have hpar : DerF 0 (.lp :: (([.id ['a']] ++ .or :: [.id ['b']]) ++ [.rp])) _ :=
+    DerF.par (DerF.up (by omega) (DerF.up (by omega) (DerF.up (by omega) hor)))
+  have hand := DerF.andS (DerF.up (by omega) hpar) (DerF.up (by omega) (DerF.up (by omega) (DerF.neg hc)))
+  exact DerF.up (by omega) (DerF.up (by omega) (DerF.up (by omega) (DerF.up (by omega) hand)))
+
+/-- `group` on a concrete flat string, and an unbalanced one -/
+example : group [.lp, .id ['a'], .rp, .and, .lp, .lp, .rp, .rp] =
+    some [.group [.id ['a']], .and, .group [.group []]] := by rfl
+example : group [.lp, .id ['a']] = none ∧ group [.rp] = none := ⟨by rfl, by rfl⟩
 
 end B.Props.C14
